@@ -56,8 +56,8 @@ Lemma start_exec s i s' : step c s (WExecStart i) = Some s' ->
   i < n /\ is_exec (nd s i) = false /\ forall j, is_exec (nd s' j) = if j =? i then true else is_exec (nd s j).
 Proof.
   cbn [step]. destruct (ph (nd s i)) eqn:E; try discriminate.
-  destruct ((i <? n) && negb (dry c) && negb (timedout s)) eqn:G; [|discriminate]. intros H. injection H as <-.
-  apply andb_true_iff in G. destruct G as [G _]. apply andb_true_iff in G. destruct G as [G _]. apply Nat.ltb_lt in G.
+  destruct ((i <? n) && negb (dry c) && negb (timedout s) && negb (create_fails c s i)) eqn:G; [|discriminate]. intros H. injection H as <-.
+  apply andb_true_iff in G. destruct G as [G _]. apply andb_true_iff in G. destruct G as [G _]. apply andb_true_iff in G. destruct G as [G _]. apply Nat.ltb_lt in G.
   split; [exact G|]. split; [unfold is_exec; rewrite E; reflexivity|].
   intros j. unfold set_nd, upd, is_exec. cbn [nd]. destruct (j =? i); reflexivity.
 Qed.
